@@ -27,12 +27,12 @@ const (
 	KVarint
 	KVarlong
 	KUuid
-	KString         // string / nullable-string / nullable-string-vN+
-	KBytes          // bytes / nullable-bytes
-	KVarintString   // varint length prefix, Go string
-	KVarintBytes    // varint length prefix, negative = null
-	KArray          // [T], nullable[T], nullable-vN+[T], varint[T]
-	KStruct         // =>, nullable=>, NamedStruct
+	KString           // string / nullable-string / nullable-string-vN+
+	KBytes            // bytes / nullable-bytes
+	KVarintString     // varint length prefix, Go string
+	KVarintBytes      // varint length prefix, negative = null
+	KArray            // [T], nullable[T], nullable-vN+[T], varint[T]
+	KStruct           // =>, nullable=>, NamedStruct
 	KLengthFieldMinus // raw bytes sized by an earlier field
 )
 
